@@ -9,6 +9,7 @@ E1 drivers (BFS over call histories, cache capacity lowered to 3):
 E3: read / mutate / read of feature arrays through the dataset interface.
 """
 import hashlib
+import itertools
 import os
 
 import numpy as np
@@ -359,7 +360,47 @@ class ContourDriver(explore.Driver):
 
 # -- dataset interface: read / mutate / read -------------------------------------
 
+PATS = ["[:]", "asarray", "asarray_i32", "asarray_f32", "[1:4]", "[2]",
+        "minmax"]
+
+
+def _read(ds, feat, access):
+    if access == "[:]":
+        return ds[feat][:]
+    if access == "asarray":
+        return np.asarray(ds[feat])
+    if access == "asarray_i32":
+        return np.asarray(ds[feat], dtype=np.int32)
+    if access == "asarray_f32":
+        return np.asarray(ds[feat], dtype=np.float32)
+    if access == "[1:4]":
+        return ds[feat][1:4]
+    if access == "[2]":
+        return ds[feat][2]
+    obj = ds[feat]
+    if hasattr(obj, "min") and not isinstance(obj, np.ndarray):
+        return np.array([obj.min(), obj.max()])
+    return np.array([np.nanmin(obj), np.nanmax(obj)])
+
+
+def _truth(arr, access):
+    if access in ("[:]", "asarray"):
+        return arr
+    if access == "asarray_i32":
+        return arr.astype(np.int32)
+    if access == "asarray_f32":
+        return arr.astype(np.float32)
+    if access == "[1:4]":
+        return arr[1:4]
+    if access == "[2]":
+        return arr[2]
+    return np.array([np.nanmin(arr), np.nanmax(arr)])
+
+
 def _ds_case(args):
+    """Every ordered pair of access patterns on a fresh dataset object: the
+    first result is modified in place (if writable), the second access must
+    still return the stored data."""
     kind, seed, scratch = args
     import dclab
     gen.register_user_features()
@@ -368,76 +409,85 @@ def _ds_case(args):
     ev = gen.make_events(n, seed=seed, special=False)
     path = scratch / f"c17_{kind}_{os.getpid()}.rtdc"
     gen.write_rtdc(path, ev)
-    opened = []
-    try:
+    mapping = np.array([4, 1, 1, 5], dtype=np.uint64)
+    thr = float(np.sort(ev["area_um"])[1])
+    ref = scratch / f"c17_{kind}_{os.getpid()}_ref.rtdc"
+    if kind in ("basin", "basin-mapped"):
+        from dclab.rtdc_dataset.writer import RTDCWriter
+        with RTDCWriter(ref, mode="reset") as hw:
+            hw.store_metadata(gen.complete_meta(n))
+            if kind == "basin":
+                hw.store_feature("index_online", ev["index_online"])
+                hw.store_basin("b", "file", "hdf5", [str(path)],
+                               basin_feats=["deform", "area_um"])
+            else:
+                hw.store_feature("index_online",
+                                 ev["index_online"][mapping.astype(int)])
+                hw.store_basin("b", "file", "hdf5", [str(path)],
+                               basin_feats=["deform", "area_um"],
+                               basin_map=mapping)
+
+    def open_ds():
+        opened = []
         if kind == "hdf5":
             ds = dclab.new_dataset(path)
             opened.append(ds)
+            sel = np.arange(n)
         elif kind == "dict":
             ds = dclab.new_dataset({k: ev[k].copy() for k in
                                     ("deform", "area_um", "bright_avg")})
+            sel = np.arange(n)
         elif kind == "child":
             par_ = dclab.new_dataset(path)
             opened.append(par_)
-            par_.config["filtering"]["area_um min"] = float(
-                np.sort(ev["area_um"])[1])
+            par_.config["filtering"]["area_um min"] = thr
             par_.config["filtering"]["area_um max"] = 1e9
             ds = dclab.new_dataset(par_)
-        elif kind in ("basin", "basin-mapped"):
-            ref = scratch / f"c17_{kind}_{os.getpid()}_ref.rtdc"
-            from dclab.rtdc_dataset.writer import RTDCWriter
-            mapping = np.array([4, 1, 1, 5], dtype=np.uint64)
-            with RTDCWriter(ref, mode="reset") as hw:
-                meta = gen.complete_meta(n)
-                hw.store_metadata(meta)
-                if kind == "basin":
-                    hw.store_feature("index_online", ev["index_online"])
-                    hw.store_basin("b", "file", "hdf5", [str(path)],
-                                   basin_feats=["deform", "area_um"])
-                else:
-                    hw.store_feature("index_online",
-                                     ev["index_online"][mapping.astype(int)])
-                    hw.store_basin("b", "file", "hdf5", [str(path)],
-                                   basin_feats=["deform", "area_um"],
-                                   basin_map=mapping)
+            sel = np.flatnonzero(ev["area_um"] >= thr)
+        else:
             ds = dclab.new_dataset(ref)
             opened.append(ds)
+            sel = mapping.astype(int) if kind == "basin-mapped" \
+                else np.arange(n)
+        return ds, opened, sel
+    try:
         for feat in ("deform", "area_um"):
-            for access in ("[:]", "asarray", "[1:4]", "[2]"):
-                def read():
-                    if access == "[:]":
-                        return ds[feat][:]
-                    if access == "asarray":
-                        return np.asarray(ds[feat])
-                    if access == "[1:4]":
-                        return ds[feat][1:4]
-                    return ds[feat][2]
-                first = read()
-                keep = np.array(first, copy=True)
-                mutated = False
-                if isinstance(first, np.ndarray) and first.ndim:
-                    try:
-                        first[...] = first + 1000.0
-                        mutated = True
-                    except ValueError:
-                        pass      # read-only result: fine
-                second = read()
-                if not np.array_equal(np.asarray(second), keep,
-                                      equal_nan=True):
-                    out.append(violation(
-                        f"dclab.rtdc_dataset:{type(ds[feat]).__name__}"
-                        ".__getitem__", "mutation-leaks-into-cache",
-                        {"kind": "dataset", "ds": kind, "seed": seed},
-                        f"{kind} ds['{feat}']{access}: after modifying the "
-                        f"returned array in place a second read gives "
-                        f"{np.asarray(second)} instead of {keep}",
-                        {"ds": kind, "access": access}))
-                    # undo so later patterns start clean
-                    if mutated:
-                        first[...] = first - 1000.0
+            for a, b in itertools.product(PATS, repeat=2):
+                ds, opened, sel = open_ds()
+                try:
+                    truth = ev[feat][sel]
+                    case = {"kind": "dataset", "ds": kind, "seed": seed}
+                    where = (f"dclab.rtdc_dataset:"
+                             f"{type(ds[feat]).__name__}.__getitem__")
+                    first = _read(ds, feat, a)
+                    if not np.array_equal(np.asarray(first),
+                                          np.asarray(_truth(truth, a)),
+                                          equal_nan=True):
+                        out.append(violation(
+                            where, "wrong-data", case,
+                            f"{kind} ds['{feat}'] {a}: {np.asarray(first)} "
+                            f"instead of {_truth(truth, a)}",
+                            {"ds": kind, "access": a}))
+                    if isinstance(first, np.ndarray) and first.ndim:
+                        try:
+                            first[...] = first + 1000
+                        except ValueError:
+                            pass      # read-only result: fine
+                    second = _read(ds, feat, b)
+                    if not np.array_equal(np.asarray(second),
+                                          np.asarray(_truth(truth, b)),
+                                          equal_nan=True):
+                        out.append(violation(
+                            where, "earlier-access-changes-result", case,
+                            f"{kind} ds['{feat}']: access {a} (result "
+                            f"modified in place if writable) followed by "
+                            f"{b} gives {np.asarray(second)} instead of "
+                            f"{_truth(truth, b)}",
+                            {"ds": kind, "first": a, "second": b}))
+                finally:
+                    for d in opened:
+                        d.close()
     finally:
-        for d in opened:
-            d.close()
         for p in scratch.glob(f"c17_{kind}_{os.getpid()}*.rtdc"):
             p.unlink()
     return out
@@ -482,7 +532,7 @@ def run(ctx):
              for k in ("hdf5", "dict", "child", "basin", "basin-mapped")]
     for vs in par.pmap(_ds_case, items):
         viols.extend(vs)
-    cov["dataset_read_mutate_read_cases"] = len(items) * 8
+    cov["dataset_access_pair_cases"] = len(items) * 2 * len(PATS) ** 2
     cov["rule"] = ("BFS over call sequences of the memoised functions with "
                    "cache capacity 3 and a pool of adversarially similar "
                    "arguments (same bytes/other dtype, byte stream split "
